@@ -4,7 +4,8 @@
 use std::rc::Rc;
 
 use crate::disk::Disk;
-use crate::trace::{tag_from_str, Surgery};
+use crate::trace::{tag_from_str, FvRecord, Surgery};
+use crate::{bitmap_build, morx_build};
 
 const FVAR: u32 = 0x6676_6172;
 
@@ -59,6 +60,101 @@ pub fn feature_variations(feature_index: u16, lookups: &[u16], min: i16, max: i1
     v
 }
 
+/// FeatureVariations table with one record per entry of `records` (condition on axis 0).
+pub fn feature_variations_multi(records: &[FvRecord]) -> Vec<u8> {
+    let n = records.len();
+    let mut v = Vec::new();
+    v.extend_from_slice(&[0, 1, 0, 0]);
+    v.extend_from_slice(&(n as u32).to_be_bytes());
+    let header = 8 + 8 * n;
+    // per record: ConditionSet (2 + 4) + Condition (8) = 14 bytes, then substitution table
+    let mut bodies: Vec<Vec<u8>> = Vec::new();
+    let mut offsets = Vec::new();
+    let mut at = header;
+    for r in records {
+        let mut b = Vec::new();
+        b.extend_from_slice(&1u16.to_be_bytes());
+        b.extend_from_slice(&6u32.to_be_bytes());
+        b.extend_from_slice(&1u16.to_be_bytes());
+        b.extend_from_slice(&0u16.to_be_bytes());
+        b.extend_from_slice(&r.min.to_be_bytes());
+        b.extend_from_slice(&r.max.to_be_bytes());
+        let subst = at + b.len();
+        b.extend_from_slice(&[0, 1, 0, 0]);
+        b.extend_from_slice(&1u16.to_be_bytes());
+        b.extend_from_slice(&r.feature_index.to_be_bytes());
+        b.extend_from_slice(&12u32.to_be_bytes());
+        b.extend_from_slice(&0u16.to_be_bytes());
+        b.extend_from_slice(&(r.lookups.len() as u16).to_be_bytes());
+        for l in &r.lookups {
+            b.extend_from_slice(&l.to_be_bytes());
+        }
+        offsets.push((at as u32, subst as u32));
+        at += b.len();
+        bodies.push(b);
+    }
+    for (c, s) in &offsets {
+        v.extend_from_slice(&c.to_be_bytes());
+        v.extend_from_slice(&s.to_be_bytes());
+    }
+    for b in bodies {
+        v.extend_from_slice(&b);
+    }
+    v
+}
+
+fn append_feature_variations(disk: &mut Disk, table: &str, fv: Vec<u8>) -> Result<(), String> {
+    let t = tag_from_str(table);
+    let old = disk
+        .tables
+        .get(&t)
+        .ok_or_else(|| format!("surgery: no {} table", table))?
+        .clone();
+    if old.len() < 10 || be16(&old, 0) != Some(1) {
+        return Err("surgery: unexpected layout table header".into());
+    }
+    let minor = be16(&old, 2).unwrap_or(0);
+    let mut new = Vec::with_capacity(old.len() + fv.len() + 8);
+    if minor == 0 {
+        new.extend_from_slice(&[0, 1, 0, 1]);
+        for o in [4usize, 6, 8] {
+            let v = be16(&old, o).unwrap_or(0);
+            let v = if v == 0 { 0 } else { v.checked_add(4).ok_or("surgery: offset overflow")? };
+            new.extend_from_slice(&v.to_be_bytes());
+        }
+        let body = &old[10..];
+        let mut fv_off = 14 + body.len();
+        let pad = (4 - fv_off % 4) % 4;
+        fv_off += pad;
+        new.extend_from_slice(&(fv_off as u32).to_be_bytes());
+        new.extend_from_slice(body);
+        new.extend(std::iter::repeat(0).take(pad));
+    } else {
+        if old.len() < 14 {
+            return Err("surgery: short v1.1 header".into());
+        }
+        new.extend_from_slice(&old);
+        while new.len() % 4 != 0 {
+            new.push(0);
+        }
+        let fv_off = new.len() as u32;
+        new[10..14].copy_from_slice(&fv_off.to_be_bytes());
+    }
+    new.extend_from_slice(&fv);
+    disk.tables.insert(t, Rc::new(new));
+    disk.tables
+        .entry(FVAR)
+        .or_insert_with(|| Rc::new(synthetic_fvar()));
+    Ok(())
+}
+
+fn num_glyphs(disk: &Disk) -> Result<u16, String> {
+    disk.tables
+        .get(&tag_from_str("maxp"))
+        .and_then(|m| be16(m, 4))
+        .ok_or_else(|| "surgery: no maxp".to_string())
+}
+
 /// (feature tag, lookup indices) per feature index of a GSUB/GPOS table.
 pub fn feature_list(table: &[u8]) -> Vec<(u32, Vec<u16>)> {
     let mut out = Vec::new();
@@ -102,49 +198,62 @@ pub fn apply(disk: &mut Disk, s: &Surgery) -> Result<(), String> {
             lookups,
             min,
             max,
+        } => append_feature_variations(
+            disk,
+            table,
+            feature_variations(*feature_index, lookups, *min, *max),
+        ),
+        Surgery::FeatureVariationsMulti { table, records } => {
+            append_feature_variations(disk, table, feature_variations_multi(records))
+        }
+        Surgery::InstallMorx { glyphs, variant } => {
+            let n = num_glyphs(disk)?;
+            let table = morx_build::build_morx(n, glyphs, *variant);
+            disk.tables.insert(tag_from_str("morx"), Rc::new(table));
+            disk.tables.remove(&tag_from_str("GSUB"));
+            Ok(())
+        }
+        Surgery::InstallBitmaps {
+            colour,
+            variant,
+            extended,
         } => {
-            let t = tag_from_str(table);
-            let old = disk
-                .tables
-                .get(&t)
-                .ok_or_else(|| format!("surgery: no {} table", table))?
-                .clone();
-            if old.len() < 10 || be16(&old, 0) != Some(1) {
-                return Err("surgery: unexpected layout table header".into());
-            }
-            let minor = be16(&old, 2).unwrap_or(0);
-            let fv = feature_variations(*feature_index, lookups, *min, *max);
-            let mut new = Vec::with_capacity(old.len() + fv.len() + 8);
-            if minor == 0 {
-                new.extend_from_slice(&[0, 1, 0, 1]);
-                for o in [4usize, 6, 8] {
-                    let v = be16(&old, o).unwrap_or(0);
-                    let v = if v == 0 { 0 } else { v.checked_add(4).ok_or("surgery: offset overflow")? };
-                    new.extend_from_slice(&v.to_be_bytes());
-                }
-                let body = &old[10..];
-                let mut fv_off = 14 + body.len();
-                let pad = (4 - fv_off % 4) % 4;
-                fv_off += pad;
-                new.extend_from_slice(&(fv_off as u32).to_be_bytes());
-                new.extend_from_slice(body);
-                new.extend(std::iter::repeat(0).take(pad));
-            } else {
-                if old.len() < 14 {
-                    return Err("surgery: short v1.1 header".into());
-                }
-                new.extend_from_slice(&old);
-                while new.len() % 4 != 0 {
-                    new.push(0);
-                }
-                let fv_off = new.len() as u32;
-                new[10..14].copy_from_slice(&fv_off.to_be_bytes());
-            }
-            new.extend_from_slice(&fv);
-            disk.tables.insert(t, Rc::new(new));
+            let n = num_glyphs(disk)?;
+            let opts = bitmap_build::Options {
+                components: *extended && !*colour,
+                raw_bgra: *extended && *colour,
+            };
+            let t = bitmap_build::build_bitmap_tables_ext(n, *colour, *variant, opts);
             disk.tables
-                .entry(FVAR)
-                .or_insert_with(|| Rc::new(synthetic_fvar()));
+                .insert(u32::from_be_bytes(t.location_tag), Rc::new(t.location));
+            disk.tables
+                .insert(u32::from_be_bytes(t.data_tag), Rc::new(t.data));
+            Ok(())
+        }
+        Surgery::InstallVertical { num_v_metrics } => {
+            let n = num_glyphs(disk)?;
+            let hhea = disk
+                .tables
+                .get(&tag_from_str("hhea"))
+                .ok_or("surgery: no hhea")?
+                .clone();
+            if hhea.len() < 36 {
+                return Err("surgery: short hhea".into());
+            }
+            let nv = (*num_v_metrics).clamp(1, n.max(1));
+            let mut vhea = (*hhea).clone();
+            vhea[0..4].copy_from_slice(&[0, 1, 0x10, 0]); // version 1.1
+            vhea[34..36].copy_from_slice(&nv.to_be_bytes());
+            let mut vmtx = Vec::with_capacity(4 * usize::from(nv) + 2 * usize::from(n - nv.min(n)));
+            for g in 0..nv {
+                vmtx.extend_from_slice(&(1000u16.wrapping_add(g % 7 * 10)).to_be_bytes());
+                vmtx.extend_from_slice(&((g % 5) as i16 * 3 - 4).to_be_bytes());
+            }
+            for g in nv..n {
+                vmtx.extend_from_slice(&((g % 5) as i16 * 3 - 4).to_be_bytes());
+            }
+            disk.tables.insert(tag_from_str("vhea"), Rc::new(vhea));
+            disk.tables.insert(tag_from_str("vmtx"), Rc::new(vmtx));
             Ok(())
         }
     }
